@@ -173,3 +173,6 @@ func vDigestHashIs(k int, h crypto.Hash) bool
 func vDigestCanonIs(k int, c dsig.Canonicalizer) bool
 
 func vScreenRejections() int
+
+func vWatch(sp *SAMLServiceProvider)
+func vWatchedWritesExcept(field string) int
